@@ -137,11 +137,11 @@ def show_val(typ, k):
         return str(k % 2)
     if t == 'std::string':
         return f's{k}'
-    if t == 'Sub::MyLongNamedType':
+    if t in ('Sub::MyLongNamedType', '::Sub::MyLongNamedType'):
         return f'L{k}'
     if t == '::My::Data<int>':
         return f'D{k}'
-    if t == 'std::shared_ptr<Incident>':
+    if t in ('std::shared_ptr<Incident>', 'std::shared_ptr<::Incident>'):
         return f'I{k}'
     if t.startswith('type_') and t.endswith('_t'):
         return f't{t[5]}_{k}'
